@@ -95,6 +95,8 @@ type EnvCfg struct {
 	Warmup           int      `json:"warmup"`                 // blocks executed before the explored history (the last one carries Setup)
 	Setup            []TxSpec `json:"setup,omitempty"`        // transactions of the last warm-up block; all must succeed
 	Proposer         string   `json:"proposer,omitempty"`     // default block proposer (N1)
+	LocalNode        string   `json:"local_node,omitempty"`   // servicer identity of this process (default N1)
+	BaseRelays       int64    `json:"base_relays,omitempty"`  // application BaseRelaysPerPOKT (default: the module default, 100)
 	GenesisJSON      string   `json:"genesis_json,omitempty"` // start from this (exported) application state instead of the built-in genesis
 }
 
@@ -201,6 +203,9 @@ func buildGenesis(env EnvCfg) app.GenesisState {
 	ap.Params.UnstakingTime = time.Duration(env.UnstakingBlocks) * chainBlockInterval
 	ap.Params.MaxApplications = env.MaxApplications
 	ap.Params.MaxChains = 2
+	if env.BaseRelays > 0 {
+		ap.Params.BaseRelaysPerPOKT = env.BaseRelays
+	}
 	ap.Applications = append(ap.Applications, appsTypes.Application{Address: caddr("P1"), PublicKey: ckey("P1").PublicKey(), Status: sdk.Staked, Chains: []string{"0001"},
 		StakedTokens: sdk.NewInt(stakeP1), MaxRelays: sdk.NewInt(stakeP1 / 1000000 * 100)})
 	gen[appsTypes.ModuleName] = cdc.MustMarshalJSON(ap)
@@ -446,6 +451,7 @@ type replica struct {
 	donated map[string]int64
 	mon     map[string]map[string]interface{}
 	args    map[string]string
+	hosted  *pocketTypes.HostedBlockchains
 	inBlock bool // between BeginBlock and Commit of the real application
 }
 
@@ -468,7 +474,9 @@ func newReplica(env EnvCfg) *replica {
 
 func (r *replica) open() {
 	app.GenState = r.genesis
-	hosted := &pocketTypes.HostedBlockchains{M: map[string]pocketTypes.HostedBlockchain{"0001": {ID: "0001", URL: "http://127.0.0.1:1"}}}
+	hosted := &pocketTypes.HostedBlockchains{M: map[string]pocketTypes.HostedBlockchain{"0001": {ID: "0001", URL: stubChain()}, "0002": {ID: "0002", URL: stubChain()}}}
+	r.hosted = hosted
+	r.setupLocalNode()
 	r.app = app.NewPocketCoreApp(r.genesis, nil, stubTM{}, hosted, bufLogger{r.logbuf}, r.db, r.env.StateCache, 5000000)
 	r.bs = tmStore.NewBlockStore(r.bsdb)
 	r.txi = sdk.NewTransactionIndexer(r.txdb)
@@ -517,6 +525,23 @@ func (r *replica) initChain() {
 	cp := &abci.ConsensusParams{Block: &abci.BlockParams{MaxBytes: 4000000, MaxGas: -1}, Evidence: &abci.EvidenceParams{MaxAge: 1000000}, Validator: &abci.ValidatorParams{PubKeyTypes: []string{"ed25519"}}}
 	res := r.app.InitChain(abci.RequestInitChain{ChainId: chainID, Time: chainT0, ConsensusParams: cp})
 	r.foldValUpdates(res.Validators)
+	// Parameters introduced by later upgrades are not written at genesis (height 0): on a real chain the
+	// activation blocks wrote them. A chain that starts above those heights gets them here, with the genesis values.
+	if r.env.BaseHeight > 0 && r.env.FeatureHeight <= r.env.BaseHeight {
+		cdc := chainCodec()
+		ctx := sdk.NewContext(r.app.Store(), abci.Header{ChainID: chainID, Height: r.env.BaseHeight}, false, bufLogger{r.logbuf})
+		_, nk, _, _, pk := r.app.VerifKeepers()
+		if raw, ok := r.genesis[nodesTypes.ModuleName]; ok {
+			var pos nodesTypes.GenesisState
+			cdc.MustUnmarshalJSON(raw, &pos)
+			nk.SetParams(ctx, pos.Params)
+		}
+		if raw, ok := r.genesis[pocketTypes.ModuleName]; ok {
+			var pg pocketTypes.GenesisState
+			cdc.MustUnmarshalJSON(raw, &pg)
+			pk.SetParams(ctx, pg.Params)
+		}
+	}
 }
 
 func (r *replica) foldValUpdates(ups []abci.ValidatorUpdate) []string {
@@ -588,6 +613,8 @@ func (r *replica) runBlock(b BlockSpec) BlockRes {
 	block.AppHash = r.appHash
 	block.ProposerAddress = tmtypes.Address(caddr(proposer))
 	block.ConsensusHash = []byte("verif-consensus-hash-32-bytes!!!")
+	// a header without a validators hash has no hash at all (Header.Hash returns nil): every block carries one
+	block.ValidatorsHash = []byte("verif-validators-hash-32-bytes!!")
 	if b.HashSalt != "" {
 		block.ValidatorsHash = []byte(b.HashSalt)
 	}
@@ -651,6 +678,10 @@ func (r *replica) runBlock(b BlockSpec) BlockRes {
 // ctxNow: a context over the live (working == last committed) state, for read-only inspection.
 func (r *replica) ctxNow() sdk.Context {
 	hdr := abci.Header{ChainID: chainID, Height: r.height, Time: r.time}
+	if meta := r.bs.LoadBlockMeta(r.height); meta != nil {
+		// the header of the last executed block, as a node's own context for that height carries it
+		hdr = tmtypes.TM2PB.Header(&meta.Header)
+	}
 	return sdk.NewContext(r.app.Store(), hdr, false, bufLogger{r.logbuf}).WithBlockStore(r.bs).WithAppVersion(app.AppVersion)
 }
 
